@@ -585,7 +585,7 @@ class ContainerSystem(object):
         ops += [['delta', 0.5], ['delta', 0.34], ['sample_size', 4]]
         if self.kind == 'surface':
             ops += [['tessellate_force']]
-        ops += [['transform', 'translate'], ['transform', 'scale']]
+        ops += [['transform', 'translate'], ['transform', 'scale'], ['transform', 'rotate']]
         if self.kind == 'surface':
             ops += [['transform', 'transpose']]
         ops += [['become_deepcopy']]
@@ -616,6 +616,8 @@ class ContainerSystem(object):
                     operations.translate(obj, [0.5, -1.0, 2.0], inplace=True)
                 elif op[1] == 'scale':
                     operations.scale(obj, 2.0, inplace=True)
+                elif op[1] == 'rotate':
+                    operations.rotate(obj, 30.0, axis=2, inplace=True)
                 else:
                     operations.transpose(obj, inplace=True)
             elif k == 'edit_element':
